@@ -612,6 +612,7 @@ pub struct AFacts {
     pub kinds_out: std::collections::BTreeSet<&'static str>,
     pub known: Vec<&'static str>,
     pub ended_early_for_known: bool,
+    pub early_stops: u64,
 }
 
 pub const SIG_F4: &str = "tail.limit_decrease_beyond_len";
@@ -647,6 +648,8 @@ struct Oracle<'a> {
     facts: AFacts,
     stop_for_known: bool,
     removed_by_truncate: Vec<u32>,
+    /// per tap: its last poll answered Pending (or the end) - it has nothing more to give right now
+    idle: Vec<bool>,
 }
 
 fn stage_tags(spec: &Stage, batched: bool) -> &'static str {
@@ -719,9 +722,10 @@ impl<'a> Oracle<'a> {
                     self.limit_seen[k] = Some(*v);
                 }
                 EvK::LimitEnd => {}
-                EvK::Pending => {}
+                EvK::Pending => self.idle[e.tap] = true,
                 EvK::End => {
                     let k = e.tap;
+                    self.idle[k] = true;
                     if !self.ended[k] {
                         let below_ended = if k == 0 { !self.src_alive } else { self.ended[k - 1] };
                         if !below_ended {
@@ -739,6 +743,7 @@ impl<'a> Oracle<'a> {
                 }
                 EvK::Item(ds) => {
                     let k = e.tap;
+                    self.idle[k] = false;
                     if self.ended[k] {
                         return self.div("C08|C09|C10|C11|C12", format!("tap {k} yielded an item after its end"));
                     }
@@ -956,6 +961,48 @@ impl<'a> Oracle<'a> {
     /// top stream answered Pending: every stage must show its view of the stage below
     fn quiescent(&mut self, contents: &[Item]) -> Result<(), Div> {
         self.facts.quiescent_checks += 1;
+        // The top stream said Pending. A stage whose input stream was not Pending at its last poll stopped
+        // early: what it shows is then judged against what its input holds *now* (for the first stage: the
+        // vector's contents at this moment), not against what it happened to consume.
+        let busy: Vec<usize> = (0..self.n).filter(|j| !self.idle[*j]).collect();
+        if busy.len() == 1 && !self.stop_for_known {
+            let j = busy[0];
+            let ambiguous = j > 0 && matches!(self.h.chain[j - 1], Stage::SortByKey);
+            if (j == 0 || vals(&self.replicas[0]) == vals(contents)) && !ambiguous && self.armed.iter().all(|a| a.is_none()) {
+                let input_now: Vec<Item> = if j == 0 {
+                    contents.to_vec()
+                } else {
+                    let sp = self.h.chain[j - 1];
+                    let p = if sp.dynamic() { self.param_now(j) } else { self.limit_seen[j] };
+                    view(&sp, p, &self.replicas[j - 1])
+                };
+                let spec = self.h.chain[j];
+                let p = if spec.dynamic() { self.param_now(j + 1) } else { self.limit_seen[j + 1] };
+                self.facts.early_stops += 1;
+                if !conforms(&spec, p, &input_now, &self.replicas[j + 1]) {
+                    return self.div(
+                        stage_tags(&spec, self.h.batched),
+                        format!(
+                            "at a quiescent point: stage {} ({}, parameter {p:?}) reported Pending although its input stream had more items ready; it shows {:?} while its input holds {:?} now",
+                            j + 1,
+                            spec.show(),
+                            vals(&self.replicas[j + 1]),
+                            vals(&input_now)
+                        ),
+                    );
+                }
+                // a harmless early stop (what is left does not change the view); the relations between the
+                // consumed inputs and the views are still checked below
+                for k in 1..=self.n {
+                    self.disarm(k)?;
+                }
+                self.check_views("at a quiescent point")?;
+                for q in &mut self.truncs {
+                    q.clear();
+                }
+                return Ok(());
+            }
+        }
         if vals(&self.replicas[0]) != vals(contents) {
             return self.div(
                 "C05|C06",
@@ -1058,6 +1105,7 @@ fn run_inner(h: &AdpHistory, prop: &str, known: &Known) -> Result<AFacts, Div> {
         facts: AFacts::default(),
         stop_for_known: false,
         removed_by_truncate: vec![],
+        idle: vec![false; n + 1],
     };
     // construction may already have consumed events (DynPartsPolled): the initial values of that
     // stage are its view *after* those; replay the log for the taps below it first.
